@@ -108,6 +108,135 @@ static char* read_table(const char* path, const uint8_t* fb, size_t fn, int mode
     return out.p;
 }
 
+/* the same file through the batch reader, every batch KEPT until the batch reader has been freed (the file reader is still
+ * open): what a batch holds stays valid until the batch is freed, and data handed out as a view until the reader is closed.
+ * The rendering (row count, null count, every value byte - BYTE_ARRAY bytes are read through their pointers, so ASan sees a
+ * pointer into a dictionary or page that has been released meanwhile) must be the same in the three I/O modes. */
+static char* read_batches_late(const char* path, const uint8_t* fb, size_t fn, int mode, long bs, const rcol* cols, int ncols) {
+    sbuf out = {0};
+    carquet_error_t err; memset(&err, 0, sizeof err);
+    carquet_reader_options_t ro; carquet_reader_options_init(&ro);
+    ro.use_mmap = mode == 1; ro.verify_checksums = true;
+    carquet_reader_t* rd = mode == 2 ? carquet_reader_open_buffer(fb, fn, &ro, &err) : carquet_reader_open(path, &ro, &err);
+    if (!rd) { sb_str(&out, "!P"); sb_int(&out, (int)err.code); return out.p; }
+    carquet_batch_reader_config_t cfg; carquet_batch_reader_config_init(&cfg); cfg.batch_size = bs; cfg.num_threads = 1; cfg.use_mmap = mode == 1;
+    carquet_batch_reader_t* br = carquet_batch_reader_create(rd, &cfg, &err);
+    if (!br) { sb_str(&out, "!B"); sb_int(&out, (int)err.code); carquet_reader_close(rd); return out.p; }
+    enum { KEEP = 4096 };
+    carquet_row_batch_t** kept = (carquet_row_batch_t**)h_alloc(KEEP * sizeof *kept); long nk = 0; int last = 0;
+    while (nk < KEEP) {
+        carquet_row_batch_t* b = NULL;
+        last = (int)carquet_batch_reader_next(br, &b);
+        if (last != 0 || !b) break;
+        kept[nk++] = b;
+    }
+    carquet_batch_reader_free(br);
+    for (long i = 0; i < nk; i++) {
+        carquet_row_batch_t* b = kept[i];
+        sb_str(&out, "["); sb_int(&out, carquet_row_batch_num_rows(b));
+        int nc = carquet_row_batch_num_columns(b);
+        for (int c = 0; c < nc && c < ncols; c++) {
+            const void* data = NULL; const uint8_t* bm = NULL; int64_t nv = 0;
+            if (carquet_row_batch_column(b, c, &data, &bm, &nv) != CARQUET_OK) { sb_str(&out, "|!C"); continue; }
+            int64_t nulls = 0;
+            if (bm) for (int64_t q = 0; q < nv; q++) if (bm[q / 8] & (1u << (q % 8))) nulls++;
+            sb_str(&out, "|"); sb_int(&out, nv); sb_str(&out, "n"); sb_int(&out, nulls); sb_str(&out, "v");
+            if (!data) { sb_str(&out, "-"); continue; }
+            int64_t nn = nv - nulls; int vs = value_size(&cols[c]);
+            for (int64_t q = 0; q < nn; q++) {
+                if (q) sb_str(&out, ":");
+                if (cols[c].ptype == 6) {
+                    const carquet_byte_array_t* a = (const carquet_byte_array_t*)data;
+                    if (a[q].length < 0 || a[q].length > 1000000) sb_str(&out, "BADLEN"); else sb_hex(&out, a[q].data, (size_t)a[q].length);
+                } else sb_hex(&out, (const uint8_t*)data + (size_t)q * (size_t)vs, (size_t)vs);
+            }
+        }
+        sb_str(&out, "]");
+    }
+    sb_str(&out, "!L"); sb_int(&out, last);
+    for (long i = 0; i < nk; i++) carquet_row_batch_free(kept[i]);
+    free(kept);
+    carquet_reader_close(rd);
+    return out.p;
+}
+
+/* The batch reader against the column reader on the same file (columns without repetition): row i of a column is null in the
+ * batch exactly when its definition level is below the column's maximum - the maximum counted along the whole path, so a leaf
+ * under an OPTIONAL group is null when the group is absent - and the dense values are the column reader's values in order. */
+typedef struct { sbuf flags, vals; long nvals; } colview;
+static void view_free(colview* v, int n) { for (int i = 0; i < n; i++) { free(v[i].flags.p); free(v[i].vals.p); } }
+static int views_from_columns(carquet_reader_t* rd, const rcol* cols, int ncols, int nrg, colview* v) {
+    for (int g = 0; g < nrg; g++) for (int c = 0; c < ncols; c++) {
+        carquet_error_t err; memset(&err, 0, sizeof err);
+        carquet_column_reader_t* cr = carquet_reader_get_column(rd, g, c, &err);
+        if (!cr) return 0;
+        int64_t n = carquet_column_remaining(cr);
+        if (n < 0 || n > 1000000) { carquet_column_reader_free(cr); return 0; }
+        int vs = value_size(&cols[c]);
+        uint8_t* vals = h_alloc((size_t)(n ? n : 1) * (size_t)vs);
+        int16_t* defs = (int16_t*)h_alloc((size_t)(n ? n : 1) * 2);
+        for (int64_t i = 0; i < n; i++) defs[i] = (int16_t)cols[c].maxdef;
+        int64_t got = n ? carquet_column_read_batch(cr, vals, n, defs, NULL) : 0;
+        if (got != n) { free(vals); free(defs); carquet_column_reader_free(cr); return 0; }
+        int64_t nn = 0;
+        for (int64_t i = 0; i < n; i++) { sb_str(&v[c].flags, defs[i] == cols[c].maxdef ? "0" : "1"); if (defs[i] == cols[c].maxdef) nn++; }
+        for (int64_t j = 0; j < nn; j++) {
+            if (v[c].nvals++) sb_str(&v[c].vals, ":");
+            if (cols[c].ptype == 6) { const carquet_byte_array_t* a = (const carquet_byte_array_t*)vals; if (a[j].length < 0 || a[j].length > 1000000) sb_str(&v[c].vals, "BADLEN"); else sb_hex(&v[c].vals, a[j].data, (size_t)a[j].length); }
+            else sb_hex(&v[c].vals, vals + (size_t)j * (size_t)vs, (size_t)vs);
+        }
+        free(vals); free(defs); carquet_column_reader_free(cr);
+    }
+    return 1;
+}
+static int views_from_batches(carquet_reader_t* rd, const rcol* cols, int ncols, long bs, colview* v) {
+    carquet_error_t err; memset(&err, 0, sizeof err);
+    carquet_batch_reader_config_t cfg; carquet_batch_reader_config_init(&cfg); cfg.batch_size = bs; cfg.num_threads = 1;
+    carquet_batch_reader_t* br = carquet_batch_reader_create(rd, &cfg, &err);
+    if (!br) return 0;
+    int ok = 1;
+    for (int guard = 0; guard < 100000; guard++) {
+        carquet_row_batch_t* b = NULL;
+        int st = (int)carquet_batch_reader_next(br, &b);
+        if (st != 0 || !b) { if (st != 0 && st != (int)CARQUET_ERROR_END_OF_DATA) ok = 0; break; }
+        for (int c = 0; c < ncols; c++) {
+            const void* data = NULL; const uint8_t* bm = NULL; int64_t nv = 0;
+            if (carquet_row_batch_column(b, c, &data, &bm, &nv) != CARQUET_OK) { ok = 0; continue; }
+            int64_t nulls = 0;
+            for (int64_t q = 0; q < nv; q++) { int isnull = bm && (bm[q / 8] & (1u << (q % 8))); sb_str(&v[c].flags, isnull ? "1" : "0"); if (isnull) nulls++; }
+            int64_t nn = nv - nulls; int vs = value_size(&cols[c]);
+            for (int64_t j = 0; data && j < nn; j++) {
+                if (v[c].nvals++) sb_str(&v[c].vals, ":");
+                if (cols[c].ptype == 6) { const carquet_byte_array_t* a = (const carquet_byte_array_t*)data; if (a[j].length < 0 || a[j].length > 1000000) sb_str(&v[c].vals, "BADLEN"); else sb_hex(&v[c].vals, a[j].data, (size_t)a[j].length); }
+                else sb_hex(&v[c].vals, (const uint8_t*)data + (size_t)j * (size_t)vs, (size_t)vs);
+            }
+        }
+        carquet_row_batch_free(b);
+    }
+    carquet_batch_reader_free(br);
+    return ok;
+}
+/* 1 = agree, 0 = differ, -1 = not applicable (a reader could not be had) */
+static int batch_vs_columns(const char* path, const rcol* cols, int ncols, int nrg, long bs) {
+    carquet_error_t err; memset(&err, 0, sizeof err);
+    carquet_reader_options_t ro; carquet_reader_options_init(&ro); ro.verify_checksums = true;
+    carquet_reader_t* rd = carquet_reader_open(path, &ro, &err);
+    if (!rd) return -1;
+    colview a[64], b[64]; memset(a, 0, sizeof a); memset(b, 0, sizeof b);
+    int res = -1;
+    if (carquet_reader_num_row_groups(rd) == nrg && carquet_reader_num_columns(rd) == ncols && views_from_columns(rd, cols, ncols, nrg, a)) {
+        int okb = views_from_batches(rd, cols, ncols, bs, b);
+        res = okb;
+        for (int c = 0; c < ncols && res == 1; c++) {
+            if (strcmp(a[c].flags.p ? a[c].flags.p : "", b[c].flags.p ? b[c].flags.p : "") != 0) res = 0;
+            if (strcmp(a[c].vals.p ? a[c].vals.p : "", b[c].vals.p ? b[c].vals.p : "") != 0) res = 0;
+        }
+    }
+    view_free(a, ncols); view_free(b, ncols);
+    carquet_reader_close(rd);
+    return res;
+}
+
 static long n_files, n_unsup;
 /* 0: `refread` (C06: what was read == what the file holds); 1: `refmodes` (C03: the three I/O modes and all batch sizes read
  * the same from a SUPPORTED reference file); 2: `refsafe` (C04: no crash / sanitizer report / hang on any reference file,
@@ -147,6 +276,24 @@ static void run_ref(hctx* h, const h_line* l) {
         }
     free(first);
     if (g_ref_kind == 1) fprintf(h->out, " p_modes_agree=%d", all_same);
+    if (g_ref_kind == 0 && !h_ll(h_in(l, "unsupported")) && ncols > 0 && ncols <= 64) {
+        int flat = 1; for (int c = 0; c < ncols; c++) if (cols[c].maxrep > 0) flat = 0;
+        if (flat) { int r1 = batch_vs_columns(path, cols, ncols, nrg, 5), r2 = batch_vs_columns(path, cols, ncols, nrg, 1000);
+                    if (r1 >= 0 && r2 >= 0) fprintf(h->out, " p_batch_eq_columns=%d", r1 == 1 && r2 == 1); }
+    }
+    if (g_ref_kind == 1) {
+        int flat = 1; for (int c = 0; c < ncols; c++) if (cols[c].maxrep > 0) flat = 0;
+        if (flat && ncols > 0) {
+            static const long bsz[] = { 1000, 3 };
+            int agree = 1;
+            for (int b = 0; b < 2; b++) {
+                char* t0 = read_batches_late(path, fb, fn, 0, bsz[b], cols, ncols);
+                for (int mode = 1; mode < 3; mode++) { char* t = read_batches_late(path, fb, fn, mode, bsz[b], cols, ncols); if (strcmp(t, t0) != 0) agree = 0; free(t); }
+                free(t0);
+            }
+            fprintf(h->out, " p_batches_late_modes_agree=%d", agree);
+        }
+    }
     if (g_ref_kind == 2) fprintf(h->out, " p_safe=1");
     fputc('\n', h->out);
     h->n_lines++; n_files++;
